@@ -86,7 +86,13 @@ func genScenario(rng *rand.Rand, maxServers, maxReact int) scenario {
 			return out
 		}
 		sv.OnDisc, sv.OnRequest, sv.OnRenew = pick(discKinds), pick(reqKinds), pick(reqKinds)
-		if s == 0 && rng.IntN(10) < 7 { // most scenarios reach the REQUEST phase
+		if s == 0 && rng.IntN(12) == 0 {
+			// a chatty server: forty replies of a kind the exchange ignores, then, a little later in the same try, the one
+			// that counts
+			sv.OnDisc = []reaction{{"inform-x40", 0}, {"offer", 1 + rng.IntN(30)}}
+			sv.OnRequest = []reaction{{"offer-again-x40", 0}, {[]string{"ack", "nak"}[rng.IntN(2)], 1 + rng.IntN(30)}}
+			sv.OnRenew = []reaction{{"offer-again-x40", 0}, {"ack", 1 + rng.IntN(30)}}
+		} else if s == 0 && rng.IntN(10) < 7 { // most scenarios reach the REQUEST phase
 			sv.OnDisc = append([]reaction{{"offer", []int{0, 1, 50, 150}[rng.IntN(4)]}}, sv.OnDisc...)
 		}
 		sc.Servers = append(sc.Servers, sv)
